@@ -538,6 +538,17 @@ impl<'a> Meta<'a> {
         })
     }
 
+    /// Add-only constructor for direct enumeration of record values.
+    #[cfg(feature = "verif-hooks")]
+    pub fn verif_new(kind: &'a str, pid: pid_t, timestamp: f64, text: &'a str) -> Meta<'a> {
+        Meta {
+            kind,
+            pid,
+            timestamp,
+            text,
+        }
+    }
+
     #[inline]
     pub fn kind(self) -> &'a str {
         self.kind
